@@ -16,7 +16,7 @@ from .. import gen as cgen
 
 PROP = 'C10'
 TIERS = {
-    'quick': {'runs': 30000, 'chunk': 50, 'wall_cap': 80, 'min_budget': 30},
+    'quick': {'runs': 26000, 'chunk': 50, 'wall_cap': 80, 'min_budget': 30},
     'thorough': {'runs': 200000, 'chunk': 50, 'wall_cap': 850, 'min_budget': 60},
 }
 RULE = ('case = seeded netlist (<= 5 inputs, primitive gates, <= 2 primitive flip-flops/latches, 1-4 library instances of ONE built-in library; run i instantiates catalogue entry i mod |catalogue| so that every cell name '
@@ -28,7 +28,7 @@ REAL_VS_STUB = {'real': ['kyupy.circuit.Circuit: copy, __getstate__/__setstate__
 ASSUMPTIONS = ['the set of cell names every library must offer is the pinned tree\'s (dsim/data/libcells.json, 1026 names); additional cells are fine', 'an instance input pin is left unconnected only where "reads 0" and "not connected" give the cell the same function (otherwise the function before resolving is ambiguous)',
                'the function of a sequential library instance is defined through its implementation: state = the state element inside, result = value at that element\'s data pin',
                'one library per case; resolve_tlib_cells is called with the library the instances were taken from']
-EXPECTED_PROBES = ['fork_as_port', 'library_simulation_compared', 'manual_buffer_inserted', 'implementation_reused_after_edit', 'nested_multi_output_impl', 'resolve_step', 'substitute_step', 'restore_step', 'elim_step', 'unconnected_input_pin', 'unconnected_output_pin', 'sequential_cell', 'multi_output_cell', 'cell_without_output', 'ignored_pin_cell']
+EXPECTED_PROBES = ['shipped_netlist', 'fork_as_port', 'library_simulation_compared', 'manual_buffer_inserted', 'implementation_reused_after_edit', 'nested_multi_output_impl', 'resolve_step', 'substitute_step', 'restore_step', 'elim_step', 'unconnected_input_pin', 'unconnected_output_pin', 'sequential_cell', 'multi_output_cell', 'cell_without_output', 'ignored_pin_cell']
 
 LIBS = ['GSC180', 'NANGATE', 'NANGATE_ZN', 'SAED32', 'SAED90']
 HIDDEN_LATCH = ('DLH_X', 'DLL_X', 'TLAT_X1', 'TLATX1', 'TLATSRX1')
@@ -51,6 +51,10 @@ def lib_of(li):
 
 
 def gen(rng, tier, i):
+    if i % 3000 == 7:
+        steps = [[rng.choice(['copy', 'pickle', 'elim', 'resolve', 'subst', 'buf']), rng.randrange(1 << 16), rng.randrange(1 << 16)] for _ in range(rng.randint(1, 4))]
+        steps.insert(rng.randint(0, len(steps)), ['resolve', 0, 0])
+        return {'net': 'b15_2ig.v.gz', 'branchforks': rng.random() < 0.5, 'lib': LIBS.index('SAED32'), 'n_in': 0, 'items': [], 'outs': [], 'fmode': [0], 'steps': steps}
     cat = catalogue()
     li, forced = cat[i % len(cat)]
     names = sorted(lib_of(li).cells)
@@ -241,6 +245,23 @@ def variable_patterns(nvars):
     return _rows_cache[nvars]
 
 
+_name_cols = {}
+
+
+def columns_for(names):
+    """Table columns of the variables: exhaustive by position up to 10 variables; beyond that 1024 pseudo-random rows derived
+    from the variable's NAME (so that tables stay comparable by name whatever the order of the list)."""
+    if len(names) <= 10: return variable_patterns(len(names))
+    import hashlib
+    cols = []
+    for n in names:
+        if n not in _name_cols:
+            if len(_name_cols) > 20000: _name_cols.clear()
+            _name_cols[n] = int.from_bytes(b''.join(hashlib.sha256(f'{n}/{k}'.encode()).digest() for k in range(4)), 'little')
+        cols.append(_name_cols[n])
+    return cols, (1 << 1024) - 1
+
+
 def table(c, tlibs, overrides):
     """(names of ports/state elements in order, {name: table of the value at its data pin})."""
     ov = {}
@@ -248,7 +269,7 @@ def table(c, tlibs, overrides):
         if n.kind != '__fork__' and n.name in overrides: ov[id(n)] = overrides[n.name]
     ev = refmodels.RefEval(c, tlibs=tlibs, overrides=ov)
     names = [n.name for n in ev.snodes]
-    cols, M = variable_patterns(len(ev.snodes))
+    cols, M = columns_for(names)
     obs, _e = ev.results(list(cols), M)
     return names, {n.name: (0 if o is None else o) for n, o in zip(ev.snodes, obs)}
 
@@ -273,7 +294,7 @@ def simulated_table(c, tlib, res):
         lp = lib_prefix(n.kind)
         if lp is None or lp != refmodels.prim_of(n.kind): return None
     snodes = refmodels.s_nodes_of(c)
-    cols, M = variable_patterns(len(snodes))
+    cols, M = columns_for([n.name for n in snodes])
     rows = M.bit_length()
     mva = np.zeros((len(snodes), rows), dtype=np.uint8)
     for i, col in enumerate(cols):
@@ -313,7 +334,14 @@ def execute(case):
         # the catalogue walk enumerates the library itself, so a cell that silently dropped out of a library would go unnoticed
         res.violate('library-cell-missing', f'library {LIBS[case["lib"]]} no longer offers {missing_cells(case["lib"])[:6]} ({len(missing_cells(case["lib"]))} names of the pinned tree): instances of these cells cannot be resolved')
         return res
-    c = build(case, res)
+    if case.get('net'):
+        # a shipped netlist (b15, ~43 000 nodes, SAED32 instances) as the starting point of the history
+        import kyupy.verilog
+        with contextlib.redirect_stdout(io.StringIO()):
+            c = kyupy.verilog.load(f"/repo/tests/{case['net']}", branchforks=bool(case.get('branchforks')), tlib=tlib)
+        res.probe('shipped_netlist')
+    else:
+        c = build(case, res)
     # the library's implementation circuits are shared objects: every later instance is resolved from them, so a
     # transformation must leave them as they are (compared at the end of the history)
     used_cells = sorted({it[1] for it in case['items'] if it[0] == 'lib'})
@@ -328,9 +356,14 @@ def execute(case):
         did = kind
         target = impl = None
         if kind == 'subst':
+            expanded = set()      # names that some other name extends with '~...': an instance name is expanded only once (name clash otherwise)
+            for x in c.nodes:
+                nm = str(x.name)
+                for pos in range(len(nm)):
+                    if nm[pos] == '~': expanded.add(nm[:pos])
+            io_ids = {id(x) for x in c.io_nodes}
             cand = [n for n in c.nodes if n.kind != '__fork__' and n.kind not in tlib.cells and not refmodels.is_state(n) and n.kind.lower() not in ('input', 'output')
-                    and refmodels.prim_of(n.kind) is not None and not any(n is x for x in c.io_nodes)
-                    and not any(x.name.startswith(n.name + '~') for x in c.nodes)]   # an instance name is expanded only once (name clash otherwise)
+                    and refmodels.prim_of(n.kind) is not None and id(n) not in io_ids and str(n.name) not in expanded]
             if not cand: continue
             target = cand[st[1] % len(cand)]
             uid += 1
@@ -419,8 +452,8 @@ def execute(case):
             # the change matches a recorded known finding: the history goes on (so that it cannot mask what later steps do),
             # judged against the list as it is now
             if removed: return res
-            tab0 = None
-            continue
+            if added or len(names0) <= 10: continue      # (positional table columns: not comparable across differently ordered lists)
+            res.probe('function_compared_by_name_after_known_reordering')
         if not graphsim.check_invariants(c, res, k, did): return res     # a structurally corrupt graph has no function
         if kind == 'resolve':
             left = [f'{n.name}:{n.kind}' for n in c.nodes if n.kind in tlib.cells]
